@@ -30,7 +30,7 @@ def make_wt(path):
 
 
 def run_tests(wt, paths, timeout=3600):
-    cmd = [PY, "-m", "pytest", "-q", "-p", "no:cacheprovider", "--timeout=900", "--continue-on-collection-errors", "-n", "16",
+    cmd = [PY, "-m", "pytest", "-q", "-p", "no:cacheprovider", "--timeout=1800", "--continue-on-collection-errors", "-n", "16",
            "-o", "junit_family=xunit1", "--junitxml", os.path.join(wt, "_junit.xml")] + paths
     env = dict(os.environ, PYTHONPATH=wt)
     try:
@@ -79,6 +79,16 @@ def main():
                 res[m] = {"tests": "full suite passed in a group of %d disjoint patches: %s" % (len(ok_members), tail), "failed": []}
         else:
             ffiles = sorted({f.split("::")[0] for f in failed})
+            # failures under machine load are usually pytest-timeouts of the slow tests: re-run the failing files once for the whole group
+            f1, t1 = run_tests(wt, ffiles, timeout=3000)
+            print(f"    re-run of {len(ffiles)} failing files with the whole group applied: {t1}; failed: {f1[:4]}", flush=True)
+            if not f1:
+                for m in ok_members:
+                    res[m] = {"tests": "full suite in a group of %d disjoint patches: %s; the %d failing test files (%s) passed when re-run with the "
+                                       "same patches applied: %s" % (len(ok_members), tail, len(ffiles), ", ".join(os.path.basename(x) for x in ffiles[:4]), t1), "failed": []}
+                json.dump(res, open(outp, "w"), indent=1)
+                sh("git", "-C", "/repo", "worktree", "remove", "--force", wt)
+                continue
             for m in ok_members:
                 sh("git", "-C", wt, "checkout", "--", "pandapower")
                 sh("git", "-C", wt, "apply", os.path.join(m, "patch.diff"))
